@@ -366,6 +366,170 @@ theorem handle_fixed (E : Env) (s : LState) (r : Req) :
     · simp only [hi]
       exact Or.inl rfl
 
+/-! ### the fuel handed to the two findall recognisers suffices -/
+
+theorem length_dropWhile_le (p : Char → Bool) (l : Str) : (l.dropWhile p).length ≤ l.length := by
+  induction l with
+  | nil => simp
+  | cons c cs ih =>
+    simp only [List.dropWhile_cons]
+    split
+    · simp only [List.length_cons]; omega
+    · simp
+
+theorem dropSpaces_length (s : Str) : (dropSpaces s).length ≤ s.length := length_dropWhile_le _ _
+
+theorem skipQ_length (s : Str) : (skipQ s).length ≤ s.length := by
+  unfold skipQ
+  split
+  · rename_i r
+    split
+    · rename_i d r2 heq
+      have h1 := dropSpaces_length r
+      rw [heq] at h1
+      simp only [List.length_cons] at h1 ⊢
+      split
+      · split
+        · rename_i r3
+          have := length_dropWhile_le isDigitC r3
+          simp only [List.length_cons] at *
+          omega
+        · omega
+      · simp only [List.length_cons]; omega
+    · omega
+  · omega
+
+theorem skipComma_length (s : Str) : (skipComma s).length ≤ s.length := by
+  unfold skipComma
+  split
+  · rename_i r
+    have := dropSpaces_length r
+    simp only [List.length_cons]; omega
+  · omega
+
+theorem tokensQ_fuel (f : Nat) (s : Str) (h : s.length < f) : tokensQ f s = tokensQ (f + 1) s := by
+  induction f generalizing s with
+  | zero => omega
+  | succ f ih =>
+    cases s with
+    | nil => simp [tokensQ]
+    | cons c cs =>
+      simp only [List.length_cons] at h
+      rw [tokensQ, tokensQ]
+      by_cases hc : isSep c = true
+      · simp only [hc, ↓reduceIte]
+        exact ih cs (by omega)
+      · have hc' : isSep c = false := by simpa using hc
+        simp only [hc', Bool.false_eq_true, ↓reduceIte]
+        refine congrArg _ (ih _ ?_)
+        have h1 := skipComma_length (skipQ (List.dropWhile notSep (c :: cs)))
+        have h2 := skipQ_length (List.dropWhile notSep (c :: cs))
+        have h3 : (List.dropWhile notSep (c :: cs)).length ≤ cs.length := by
+          have hn : notSep c = true := by simp [notSep, hc]
+          rw [List.dropWhile_cons_of_pos hn]
+          exact length_dropWhile_le _ _
+        omega
+
+/-- any fuel above the length of the header value gives the same token list -/
+theorem tokensQ_enough (s : Str) (k : Nat) : tokensQ (s.length + 1 + k) s = tokensQ (s.length + 1) s := by
+  induction k with
+  | zero => rfl
+  | succ k ih => rw [← ih, ← Nat.add_assoc, ← tokensQ_fuel _ _ (by omega)]
+
+theorem dropQuote_length (s : Str) : (dropQuote s).length ≤ s.length := by
+  unfold dropQuote
+  split <;> simp
+
+theorem stripPrefix_length {p s r : Str} (h : stripPrefix p s = some r) : r.length ≤ s.length := by
+  unfold stripPrefix at h
+  split at h
+  · cases h; simp
+  · cases h
+
+theorem takeCharset_length (s : Str) : (takeCharset s).2.length ≤ s.length := by
+  unfold takeCharset
+  split
+  · rename_i r
+    split
+    · rename_i r1 heq
+      have h0 := dropSpaces_length r
+      have h1 := stripPrefix_length heq
+      have h2 := dropQuote_length r1
+      have h3 := length_dropWhile_le notCsStop (dropQuote r1)
+      have h4 := dropQuote_length (List.dropWhile notCsStop (dropQuote r1))
+      simp only [List.length_cons]
+      omega
+    · simp
+  · simp
+
+theorem tokensC_fuel (f : Nat) (s : Str) (h : s.length < f) : tokensC f s = tokensC (f + 1) s := by
+  induction f generalizing s with
+  | zero => omega
+  | succ f ih =>
+    cases s with
+    | nil => simp [tokensC]
+    | cons c cs =>
+      simp only [List.length_cons] at h
+      rw [tokensC, tokensC]
+      by_cases hc : isSep c = true
+      · simp only [hc, ↓reduceIte]
+        exact ih cs (by omega)
+      · have hc' : isSep c = false := by simpa using hc
+        simp only [hc', Bool.false_eq_true, ↓reduceIte]
+        refine congrArg _ (ih _ ?_)
+        have h1 := skipComma_length (takeCharset (List.dropWhile notSep (c :: cs))).2
+        have h2 := takeCharset_length (List.dropWhile notSep (c :: cs))
+        have h3 : (List.dropWhile notSep (c :: cs)).length ≤ cs.length := by
+          have hn : notSep c = true := by simp [notSep, hc]
+          rw [List.dropWhile_cons_of_pos hn]
+          exact length_dropWhile_le _ _
+        omega
+
+theorem tokensC_enough (s : Str) (k : Nat) : tokensC (s.length + 1 + k) s = tokensC (s.length + 1) s := by
+  induction k with
+  | zero => rfl
+  | succ k ih => rw [← ih, ← Nat.add_assoc, ← tokensC_fuel _ _ (by omega)]
+
+/-! ### the header section on the wire -/
+
+theorem splitCRLF_line (l acc rest : Str) (h : '\r' ∉ l) :
+    splitCRLF false acc (l ++ '\r' :: '\n' :: rest) = (acc.reverse ++ l) :: splitCRLF false [] rest := by
+  induction l generalizing acc with
+  | nil => simp [splitCRLF]
+  | cons c l ih =>
+    have hc : c ≠ '\r' := fun e => h (by simp [e])
+    have hl : '\r' ∉ l := fun e => h (by simp [e])
+    simp only [List.cons_append, splitCRLF, Bool.false_and, Bool.false_eq_true, ↓reduceIte, beq_iff_eq, hc]
+    rw [ih _ hl]
+    simp
+
+theorem splitCRLF_join (ls : List Str) (h : ∀ l ∈ ls, '\r' ∉ l) :
+    splitCRLF false [] (joinCRLF ls ++ crlf) = ls ++ [[], []] := by
+  induction ls with
+  | nil => simp [joinCRLF, crlf, splitCRLF]
+  | cons l ls ih =>
+    have := splitCRLF_line l [] (joinCRLF ls ++ crlf) (h l (by simp))
+    simp only [joinCRLF, crlf, List.append_assoc, List.cons_append, List.nil_append] at this ⊢
+    rw [this, ← crlf, ih (fun x hx => h x (by simp [hx]))]
+    simp
+
+theorem printable_no_cr {s : Str} (h : printable s = true) : '\r' ∉ s :=
+  fun hm => (printableC_not_crlf (printable_mem h hm)).1 rfl
+
+theorem outcome_printable {s : LState} {x : LState × Response} (o : Outcome s x) :
+    hdrsPrintable x.2.headers = true ∧ printable x.2.reason = true := by
+  cases o with
+  | httpError code ce d extra hmem _ =>
+    simp only [errTable, List.mem_cons, Prod.mk.injEq, List.mem_nil_iff, or_false] at hmem
+    rcases hmem with h | h | h | h | h | h | h | h <;>
+      (obtain ⟨rfl, rfl, rfl⟩ := h
+       refine ⟨?_, by simp only [httpErrRsp]; decide⟩
+       first
+         | exact errHeaders_printable _ d _ (ce_ok _ (by decide)) (by decide)
+         | exact errHeaders_printable _ d _ ce_none (by decide))
+  | cimError msgid m code desc => exact ⟨exportHeaders_printable _, by simp only [exportRsp]; decide⟩
+  | accepted msgid inst => exact ⟨exportHeaders_printable _, by simp only [exportRsp]; decide⟩
+
 /-! ### histories -/
 
 /-- what the handler threads and the callback thread keep true of the listener state -/
